@@ -15,6 +15,9 @@ import (
 type Case struct {
 	Dst     projkit.Def `json:"dst"`
 	SrcSame bool        `json:"src_same"` // source geographic system on the destination's own datum (else WGS84)
+	// SrcNoDatum: where WGS84 would be the source, use the geographic system on the WGS84 ellipsoid WITHOUT a datum
+	// (+ellps=WGS84 only) - the pairing of a datum-less reference with a 3/7-parameter one
+	SrcNoDatum bool `json:"src_no_datum,omitempty"`
 	Lon     float64     `json:"lon"`      // degrees east of Greenwich
 	Lat     float64     `json:"lat"`
 }
@@ -23,6 +26,7 @@ func gen(t *rapid.T) Case {
 	var c Case
 	c.Dst = projkit.GenDef(t, projkit.Opts{SmallShift: true, WithAxis: true})
 	c.SrcSame = rapid.Bool().Draw(t, "srcsame")
+	c.SrcNoDatum = rapid.IntRange(0, 2).Draw(t, "srcnodatum") == 1
 	c.Lon, c.Lat = projkit.GenPosition(t, c.Dst)
 	return c
 }
@@ -80,6 +84,10 @@ func run(c Case) (v vkit.Verdict) {
 		for lon > 180 {
 			lon -= 360
 		}
+	}
+	if !c.SrcSame && c.SrcNoDatum {
+		srcDef = projkit.Def{Proj: "longlat", EllpsKind: "name", Ellps: "WGS84"}
+		v.Class("source_without_datum")
 	}
 	src := srcDef.String()
 	v.Class("proj_" + c.Dst.Proj)
@@ -160,7 +168,7 @@ func TestProp(t *testing.T) {
 		ID: "C08",
 		Rule: "rapid: PROJ.4 definitions for longlat, merc (k_0 or lat_ts), lcc (1SP/2SP, optional k_0), aea, eqdc, tmerc, utm (zones 1-60, north/south), krovak; ellipsoid by name " +
 			"(all 43 built-in names incl. sphere), a+rf, a+b or default; datum none / named (all built-in 3- and 7-parameter names, WGS84) / +towgs84 with 3 or 7 terms; false " +
-			"origins, scale, units m/ft/us-ft/+to_meter, prime meridian by name or degrees; +axis (enu, neu, wnu, esu, wsu, end, swu) in a third of the cases; standard parallels on one side of the equator. Positions inside the usable region " +
+			"origins, scale, units m/ft/us-ft/+to_meter, prime meridian by name or degrees; source = WGS84, or (a third of those cases) the datum-less geographic system on the WGS84 ellipsoid, or the geographic system on the destination's own datum; +axis (enu, neu, wnu, esu, wsu, end, swu) in a third of the cases; standard parallels on one side of the equator. Positions inside the usable region " +
 			"(|lon-lon_0|<=3.5 deg and |lat|<=84 for tmerc/utm, |lat|<=85 for merc, within 30 deg of the parallels on the cone's side and |lon-lon_0|<=90 for conics, 47-52N 12-23E " +
 			"for krovak). Source geographic system alternates between WGS84 and the system on the destination's own datum. Oracle with fresh parses and transformers for every " +
 			"stage: geo->proj->geo within 1e-6 deg (lon modulo 360), then proj->geo->proj within 0.01 m in the destination unit (0.02 m when a small +towgs84 shift from WGS84 is part of the round trip; named datums with large shifts and non-WGS84 ellipsoids with a shift are always paired with the geographic system on their own datum, because a 2-D round trip cannot carry the ellipsoidal height), " +
